@@ -3,6 +3,8 @@ package c01
 import (
 	"encoding/json"
 	"fmt"
+	"os"
+	"strings"
 	"sync"
 	"testing"
 	"time"
@@ -26,6 +28,11 @@ type wideCase struct {
 	Conns  int        `json:"conns"`
 	Rounds int        `json:"rounds"`
 	Chunk  int        `json:"write_chunk"` // the pipeline is written in pieces of this many bytes (0: one write)
+	// StaleShift > 0: after the table was loaded every slot moves StaleShift masters on (the cluster is still empty) and the table
+	// stays stale for the whole case: every child request is answered MOVED and resent. SlowUs: every node answers each command
+	// this late, so that thousands of resent requests queue up at the redirection targets.
+	StaleShift int `json:"stale_shift,omitempty"`
+	SlowUs     int `json:"slow_us,omitempty"`
 }
 
 func checkWidePipe(c wideCase) *verdict {
@@ -34,7 +41,12 @@ func checkWidePipe(c wideCase) *verdict {
 		return nil
 	}
 	defer w.Close()
-	defer sim.ProductionRefreshRate()()
+	if c.StaleShift > 0 {
+		of, om := sim.SetRefreshTimers(2*time.Minute, 2*time.Minute)
+		defer sim.SetRefreshTimers(of, om)
+	} else {
+		defer sim.ProductionRefreshRate()()
+	}
 	px, err := sim.StartProxy(sim.ProxyOpts{Seeds: w.Addrs(w.Masters())})
 	if err != nil {
 		return &verdict{"proxy-start", err.Error()}
@@ -42,6 +54,24 @@ func checkWidePipe(c wideCase) *verdict {
 	defer px.Stop(20 * time.Second)
 	if !px.WaitTableLoaded(1, 10*time.Second) {
 		return &verdict{"table-not-loaded", "routing table not loaded"}
+	}
+	if ms := w.Masters(); c.StaleShift > 0 && len(ms) >= 2 {
+		pos := map[int]int{}
+		for i, m := range ms {
+			pos[m] = i
+		}
+		was := w.OwnerSnapshot()
+		w.AssignFunc(func(slot int) int { return ms[(pos[was[slot]]+c.StaleShift)%len(ms)] })
+	}
+	if c.SlowUs > 0 {
+		slow := time.Duration(c.SlowUs) * time.Microsecond
+		w.Lock()
+		w.Delay = func(node, k int) time.Duration { return slow }
+		w.Unlock()
+	}
+	recvTimeout := 30 * time.Second
+	if c.StaleShift > 0 {
+		recvTimeout = 12 * time.Second
 	}
 	var wg sync.WaitGroup
 	res := make([]*verdict, c.Conns)
@@ -90,9 +120,16 @@ func checkWidePipe(c wideCase) *verdict {
 			}
 			go cl.Send(buf, chunks)
 			for i, s := range steps {
-				got, err := cl.Recv(30 * time.Second)
+				got, err := cl.Recv(recvTimeout)
 				if err != nil {
 					res[ci] = &verdict{"reply-missing", fmt.Sprintf("conn %d: reply %d of %d (%s of %d keys) did not arrive: %v", ci, i, len(steps), s.args[0], len(s.args)-1, err)}
+					if os.Getenv("VERIF_WP_STACKS") != "" {
+						os.WriteFile(os.Getenv("VERIF_WP_STACKS"), []byte(vh.Stacks()), 0644)
+					}
+					if n, sample := readersBlockedResending(); n > 0 {
+						res[ci] = &verdict{sigWedge, fmt.Sprintf("conn %d: reply %d of %d (%s of %d keys) did not arrive within %v: %d backend reader goroutine(s) are blocked handing a redirected (MOVED) request "+
+							"to another backend connection whose queue is full - a reader that does not read cannot drain its own connection, and the readers wait for each other. One of them:\n%s", ci, i, len(steps), s.args[0], len(s.args)-1, recvTimeout, n, sample)}
+					}
 					return
 				}
 				if !ref.Equal(got, s.want) {
@@ -115,6 +152,27 @@ func checkWidePipe(c wideCase) *verdict {
 	return nil
 }
 
+// sigWedge: the call site that identifies the finding - backend readers blocked in handleRedirection -> Send.
+const sigWedge = "redirected-resend-blocks-backend-readers"
+
+// readersBlockedResending counts the goroutines that are inside upstream.handleRedirection and blocked in client.Send
+// (called at a moment when no reply has arrived for recvTimeout: nothing moves any more).
+func readersBlockedResending() (int, string) {
+	n, sample := 0, ""
+	for _, g := range strings.Split(vh.Stacks(), "\n\n") {
+		if strings.Contains(g, "(*upstream).handleRedirection") && strings.Contains(g, "(*client).Send") {
+			n++
+			if sample == "" {
+				sample = g
+				if len(sample) > 1500 {
+					sample = sample[:1500] + "..."
+				}
+			}
+		}
+	}
+	return n, sample
+}
+
 func clipV(v ref.Value) string {
 	s := v.String()
 	if len(s) > 200 {
@@ -128,11 +186,27 @@ func TestWidePipe(t *testing.T) {
 		c := wideCase{Layout: sim.Layout{Masters: rapid.IntRange(2, 6).Draw(t, "masters"), Kind: rapid.SampledFrom([]string{"even", "striped", "random"}).Draw(t, "kind"), Seed: rapid.Uint64().Draw(t, "lseed")},
 			Keys: rapid.SampledFrom([]int{8, 32, 128, 512}).Draw(t, "keys"), Conns: rapid.IntRange(1, 4).Draw(t, "conns"), Rounds: rapid.IntRange(2, 25).Draw(t, "rounds"),
 			Chunk: rapid.SampledFrom([]int{0, 0, 1000, 70000}).Draw(t, "chunk")}
+		// a wedged proxy (known finding) cannot be stopped and keeps its buffers: few such cases per process
+		staleOneIn := 10
+		if vh.Thorough() {
+			staleOneIn = 40
+		}
+		if rapid.IntRange(1, staleOneIn).Draw(t, "stale") == 1 {
+			c.StaleShift = rapid.IntRange(1, 5).Draw(t, "staleshift")
+			c.SlowUs = rapid.SampledFrom([]int{0, 20, 100}).Draw(t, "slowus")
+		}
 		vh.CurrentCase(prop, "widepipe", c)
 		v := checkWidePipe(c)
 		vh.ClearCurrentCase()
+		if v != nil && v.sig == sigWedge && vh.Known(sigWedge) {
+			vh.ReportKnown(prop, sigWedge, v.msg)
+			v = nil
+		}
 		if v != nil {
 			vh.Fail(t, vh.Failure{Property: prop, Part: "widepipe", Signature: v.sig, Message: v.msg, Case: c})
+		}
+		if c.StaleShift > 0 {
+			vh.Rec().Class("widepipe", "every_child_request_redirected_(stale_table)")
 		}
 		vh.Rec().Case("widepipe", true, vh.JSON(c))
 		vh.Rec().ClassN("widepipe", "wide_split_requests_pipelined", int64(c.Conns*(c.Rounds*3+3)))
@@ -145,7 +219,12 @@ func init() {
 		var c wideCase
 		json.Unmarshal(raw, &c)
 		for i := 0; i < 5; i++ {
-			if v := checkWidePipe(c); v != nil {
+			v := checkWidePipe(c)
+			if v != nil && v.sig == sigWedge && vh.Known(sigWedge) {
+				vh.ReportKnown(prop, sigWedge, v.msg)
+				return
+			}
+			if v != nil {
 				vh.Fail(t, vh.Failure{Property: prop, Part: "widepipe", Signature: v.sig, Message: v.msg, Case: c})
 			}
 		}
